@@ -368,7 +368,15 @@ impl LruDiskCache {
         self.insert_by(key, Some(size), |new_path| {
             fs::rename(path.as_ref(), new_path).or_else(|_| {
                 warn!("fs::rename failed, falling back to copy!");
-                fs::copy(path.as_ref(), new_path)?;
+                // Copy next to the destination under a temporary name (ignored by
+                // lookups, removed when the cache is re-opened) and rename that into
+                // place, so that an interrupted copy never leaves a truncated file
+                // under `key`.
+                let tmp = tempfile::Builder::new()
+                    .prefix(TEMPFILE_PREFIX)
+                    .tempfile_in(new_path.parent().expect("Bad path?"))?;
+                fs::copy(path.as_ref(), tmp.path())?;
+                tmp.persist(new_path).map_err(|e| e.error)?;
                 fs::remove_file(path.as_ref()).unwrap_or_else(|e| {
                     error!("Failed to remove original file in insert_file: {}", e)
                 });
